@@ -12,7 +12,7 @@ m = {
     "hooks": {
         "guard": "SYNKIT_VERIF",
         "enable": "no source hooks: every seam (id, Parallel, ProcessPoolExecutor) is a module-level name that the harness rebinds from /verif/mc/seams.py; checks import /repo's working tree through the editable install in /venv",
-        "baseline_off_cmd": "cd /repo && /venv/bin/python -m pytest -ra -q -p no:cacheprovider --timeout=900 --continue-on-collection-errors",
+        "baseline_off_cmd": "cd /repo && /venv/bin/python -m pytest -ra -q -p no:cacheprovider --timeout=900 --continue-on-collection-errors --junitxml=/verif/.baseline.junit.xml",
         "source_commits": [],
         "add_only": True,
     },
